@@ -511,8 +511,13 @@ def checkC05 (a : A) (all : List Ev) (senderOf : Nat → Nat) : A :=
         a.chk (ku.filter (kv.contains ·) == kv.filter (ku.contains ·)) "C05" s!"receivers {u} and {v} saw their common frames in different orders") a) a
 
 /-- C14: a failure to deliver a notice or a log message never produces a further notice -/
+def aboutNotice (cfg : Cfg) (f : Frame) : Bool :=
+  match f.body with
+  | .failed _ t _ _ => inGuard cfg t
+  | _ => false
+
 def checkNoNoticeAboutNotices (cfg : Cfg) (a : A) (all : List Ev) : A :=
-  a.chk (!(sends all).any (fun p => match p.2.2.body with | .failed _ t _ _ => inGuard cfg t | _ => false)) "C14"
+  a.chk (!(sends all).any (fun p => aboutNotice cfg p.2.2)) "C14"
     "a FAILED_MESSAGE reports the failed delivery of a FAILED_MESSAGE or RTMA_LOG message"
 
 def props : List String := ["C01", "C03", "C05", "C06", "C07", "C14", "C18", "C19"]
